@@ -182,6 +182,43 @@ def r5(R, repo):
   R.check('time_axis' in t and 'slice_carry' in t and ('nnx.scan' in t or 'iteration.scan' in t or 'scan(' in t), key_of(g, 'scan over the time axis'), g, 'nnx RNN must scan over the time axis')
 
 
+
+def _order_source(f, e, mapping):
+  """'insertion' / 'sorted' for an iterable over the keys / values / items of `mapping`; None if not recognised."""
+  for x in evid.expand(f, e):
+    if not isinstance(x, ast.AST):
+      continue
+    t = astu.src(x)
+    if t in (mapping, mapping + '.keys()', mapping + '.values()', mapping + '.items()', 'list(%s)' % mapping, 'tuple(%s)' % mapping):
+      return 'insertion'
+    if isinstance(x, ast.Call) and astu.call_name(x) == 'sorted' and x.args and astu.src(x.args[0]) in (mapping, mapping + '.keys()', mapping + '.items()'):
+      return 'sorted'
+  return None
+
+
+@rule('C13.R6', 'K4', 1, 'OptimizedLSTMCell: gate kernels are concatenated and the result is split and labelled in one and the same key order')
+def r6(R, repo):
+  f = repo.func(LR, 'OptimizedLSTMCell.__call__._concat_dense')
+  mp = astu.params(f.node)[1]
+  key = key_of(f, 'concatenation order == labelling order')
+  gather = None
+  for d in flow.defs(f, 'kernels'):
+    if isinstance(d[0], (ast.ListComp, ast.GeneratorExp)):
+      gather = d[0].generators[0].iter
+  lab = None
+  for r_ in [n for n in astu.body_walk(f.node) if isinstance(n, ast.Return)]:
+    for x in ast.walk(r_.value):
+      if isinstance(x, ast.Call) and astu.call_name(x) == 'zip' and len(x.args) == 2:
+        lab = x.args[0]
+  if gather is None or lab is None:
+    R.unsure(key, f, 'gathering comprehension / labelling zip not recognised')
+    return
+  a, b = _order_source(f, gather, mp), _order_source(f, lab, mp)
+  if a is None or b is None:
+    R.unsure(key, f, 'iteration order of `%s` / `%s` not recognised' % (astu.short(gather), astu.short(lab)))
+  else:
+    R.check(a == b, key, (f, gather), 'the gate kernels are gathered in %s order of `%s` (`%s`) but the split result is labelled in %s order (`%s`): the gates are permuted, so the cell no longer computes the LSTM recurrence (nor matches LSTMCell)' % (a, mp, astu.short(gather), b, astu.short(lab)), evidence=True)
+
 meta('C13',
      explanation='CFG rules on both implementations of dot_product_attention_weights (bias -> mask select -> softmax, the mask being applied for every bias/mask combination), the decode-cache '
      'protocol of both multi-head attention modules (read index, write key/value at it, advance once, mask <= index, shape check first), the valid-length carry selection and flip pairing of both '
